@@ -90,7 +90,7 @@ def main(tier, replay=None):
             bad += PUSH_BAD
         if kind == "Tuple":
             bad += ["resize_grow", "assign_strtable"]
-            bad += ["stack_push", "stack_pushat", "stack_pop", "stack_popat", "stack_popatn", "stack_rem", "stack_resize", "stack_concat", "stack_assign"]
+            bad += ["stack_push", "stack_pushat", "stack_pop", "stack_popat", "stack_popatn", "stack_rem", "stack_resize", "stack_concat", "stack_assign", "stack_assignit"]
         if kind == "Array":
             bad += ["resize_huge", "resize_wrap"]
         for et, vals in (("Int", [0, 3, 7, 11]), ("String", [b"", b"x%d", b"%$", b"\xfe"]), ("Probe", [0, 1, 2, 3])):
